@@ -16,34 +16,43 @@ MANIFEST = {
         "technique": "Lean 4 proof (inductive invariants over all schedules of interleaving models of Mutex/Semaphore/Signal/"
                      "Monitor/Thread over an assumed POSIX layer, any number of threads) + controlled-scheduler correspondence "
                      "(real sources over a simulated POSIX layer, identical schedules replayed on the model)",
-        "text": "22 theorems: safety over every reachable state of the Lean transition systems (a schedule is the universally quantified list "
+        "text": "40 theorems (Props.lean 35, PropsDeadline.lean 5), none partial: safety over every reachable state of the Lean transition systems (a schedule is the universally quantified list "
                 "of (thread, action) choices; spurious wake-ups, EINTR, time-outs and clock ticks at any moment; unboundedly many "
-                "threads): mutex_exclusive_reentrant, trylock_nonblocking_succeeds_when_free, sem_conservation, "
-                "signal_true_only_if_set_since_reset, signal_no_waiter_stuck_while_set, signal_set_releases_all_current_waiters, "
-                "signal_mutex_holder_can_step, monitor_waits_le_sets, monitor_set_after_take_releases_a_waiter, deadline_exact, "
-                "deadline_record, timed_false_only_after_deadline_{signal,monitor,semaphore}, join_returns_result, Thr.finished_stable, "
+                "threads): mutex_exclusive_reentrant, mutex_recursion_depth_counted, trylock_nonblocking_succeeds_when_free, sem_conservation, "
+                "sem_trywait_never_blocks, sem_wait_step_accounting (true = exactly one unit taken, false = nothing consumed and for the timed wait not before its deadline), "
+                "signal_true_only_if_set_since_reset, signal_no_waiter_stuck_while_set, signal_set_releases_all_current_waiters, signal_future_waiter_returns_true_while_set, "
+                "signal_mutex_holder_can_step, monitor_waits_le_sets, monitor_set_consumed_by_exactly_one_true_return, monitor_false_return_after_deadline_keeps_flag, "
+                "monitor_set_after_take_releases_a_waiter, deadline_exact (model) and deadline_exact_{signal,monitor,semaphore} + deadline_model_is_translated_code over the "
+                "expressions TRANSLATED from the current Signal/Monitor/Semaphore.cpp on every run (Nstd/Generated/SyncDeadline.lean), "
+                "deadline_record, timed_false_only_after_deadline_{signal,monitor,semaphore}, join_returns_result (the value of the function the successful start handed over, both overloads), "
+                "thread_join_exactly_once, thread_start_refused_while_attached (the stored functor is not overwritten: fixes/sync/0002), thread_runs_started_function, Thr.finished_stable, "
                 "thread_dtor_waits_and_failed_start_is_clean, driver_stays_within_model; liveness over infinite runs: "
-                "sem_waiter_eventually_returns (weak fairness), signal_waiter_eventually_returns and "
+                "sem_waiter_eventually_returns, sem_waiter_returns_if_enough_signals (weak fairness), signal_waiter_eventually_returns, signal_every_waiter_eventually_returns (present and future waiters) and "
                 "monitor_set_eventually_releases_a_waiter (weak fairness + starvation-free mutex [+ clients release the monitor]); "
-                "whatif_signal_consumed_by_timed_out_waiter_loses_a_wakeup (a what-if POSIX variant, not the assumed one); none partial.  The models are tied to the current sources on every run: the unmodified "
+                "whatif_signal_consumed_by_timed_out_waiter_loses_a_wakeup (a what-if POSIX variant, not the assumed one).  The models are tied to the current sources on every run: the unmodified "
                 "Mutex/Semaphore/Signal/Monitor/Thread.cpp are compiled against a simulated POSIX layer (-include shim) and driven by "
                 "a controlled scheduler; all schedules of generated 2-4 thread scenarios up to N scheduling points (every candidate "
                 "incl. spurious wake-up / EINTR / time-out / clock tick at each point), all schedules with a bounded number of "
                 "deviations from the default policy at any depth, and random schedules are replayed on the model step by step (chosen "
                 "step, enabled set, return values, verdict), and an independent Python oracle evaluates the contracts of the property "
                 "on the implementation's trace (mutual exclusion, conservation, wait-true-only-if-set, stuck waiters, "
-                "timed-false-only-after-deadline in virtual time, join results, use of destroyed POSIX objects).",
+                "timed-false-only-after-deadline in virtual time, join results, use of destroyed POSIX objects).  Mutex::Guard / Monitor::Guard, both start overloads, "
+                "Thread::getCurrentThreadId / yield are driven too; the ENOSYS polling fallback of Semaphore::wait(timeout) is executed on the implementation only and judged by the oracle.",
         "note": "ASSUMED, not verified: the POSIX semantics of lean/Nstd/Sync/Posix.lean = harness/sync/sched.cpp (recursive/default "
                 "mutex, condition variable with spurious wake-ups, signal wakes exactly one chosen waiter, timed-out waiter does not "
                 "consume a signal, semaphore with EINTR, create/join, monotone virtual clock; no CLOCK_REALTIME jumps, no integer "
-                "overflow, time-outs >= 0, sem_timedwait never ENOSYS, pthread_create fails at most a budgeted number of times); glibc/kernel are not verified.  "
+                "overflow, time-outs >= 0, pthread_create fails at most a budgeted number of times); glibc/kernel are not verified.  "
+                "NOT IN THE LEAN MODEL (tie only): the ENOSYS fallback of Semaphore::wait(timeout) (the theorems assume sem_timedwait is implemented), Thread::sleep/yield/getCurrentThreadId, "
+                "the Guard classes (modelled as the lock/unlock/wait they forward to), constructors/destructors of the primitives.  "
+                "The translated deadline expressions use Lean's Int / and %, which agree with C's on the non-negative operands that occur (hypotheses of the theorems).  "
+                "unlock() by a thread that does not hold the Mutex is outside the contract: the model has no step for it (mutex_recursion_depth_counted says so).  "
                 "One atomic step = one POSIX call + the library code up to the next one: the `signaled` flags are only accessed under "
                 "the internal mutex (by inspection; data races are not detectable by a baton scheduler).  Clients respect the API "
-                "preconditions (unlock / Monitor::wait by the holder, one user per Thread object).  Liveness is proved under weak fairness of every thread plus a "
-                "starvation-free mutex (weak fairness alone does not exclude starvation at the mutex).  pthread_create failure and "
+                "preconditions (unlock / Monitor::wait by the holder; a Thread object is not restarted after join: in the model a thread id is used once).  Liveness is proved under weak fairness of every thread plus a "
+                "starvation-free mutex (weak fairness alone does not exclude starvation at the mutex); the semaphore statements need weak fairness only.  pthread_create failure and "
                 "~Thread are modelled and driven on both sides.  The hand translation into Model.lean is validated by the "
                 "correspondence run, not proved.  The model mirrors Signal::set as repaired by fixes/sync/0001 (broadcast before "
-                "unlock).  The stress run on real pthreads (harness/sync_stress.cpp) is a test.",
+                "unlock) and Thread::start(obj, member) as repaired by fixes/sync/0002.  The stress run on real pthreads (harness/sync_stress.cpp) is a test.",
         "design_ref": "DESIGN.md 3/C11, docs/sync.md",
     }
 }
@@ -117,19 +126,22 @@ _TOK = re.compile(r"\s*(?:(\d+)[uUlL]*|(ts\s*\.\s*tv_nsec|ts\s*\.\s*tv_sec|[A-Za
 
 
 def _tokens(text):
+    """(kind, value, start offset); what cannot be tokenised ends the list (it is not deadline arithmetic)"""
     toks, i = [], 0
     text = text.rstrip()
     while i < len(text):
         m = _TOK.match(text, i)
         if not m or m.end() == i:
-            raise TransErr("cannot tokenise: " + text[i:i + 40].strip())
+            break
+        start = m.end() - len(m.group(0).lstrip())
         if m.group(1) is not None:
-            toks.append(("num", int(m.group(1))))
+            toks.append(("num", int(m.group(1)), start))
         elif m.group(2) is not None:
-            toks.append(("id", re.sub(r"\s", "", m.group(2))))
+            toks.append(("id", re.sub(r"\s", "", m.group(2)), start))
         else:
-            toks.append(("op", m.group(3)))
+            toks.append(("op", m.group(3), start))
         i = m.end()
+    toks.append(("eof", None, i))
     return toks
 
 
@@ -143,7 +155,10 @@ class _Sym:
         self.lets, self.n = [], 0
 
     def peek(self):
-        return self.t[self.i] if self.i < len(self.t) else ("eof", None)
+        return self.t[self.i][:2] if self.i < len(self.t) else ("eof", None)
+
+    def offset(self):
+        return self.t[min(self.i, len(self.t) - 1)][2]
 
     def take(self, kind=None, val=None):
         k, v = self.peek()
@@ -307,10 +322,11 @@ def translate_deadline(repo, cls, rel, call):
     if not calls or not all(re.search(r",\s*&\s*ts\s*$", a) for a in calls):
         raise TransErr(f"{cls}::wait(int64): {call} is not called with &ts")
     sym = _Sym(_tokens(stmts), param)
-    while sym.peek()[0] != "eof":
-        if not sym.is_stmt_start():
-            raise TransErr(f"{cls}::wait(int64): statement between clock_gettime and the wait that is not deadline arithmetic: {sym.peek()[1]}")
+    while sym.is_stmt_start():          # the deadline arithmetic ends at the first statement that is not about ts ...
         sym.stmt()
+    if re.search(r"ts\s*\.\s*tv_|\bts\s*=|&\s*ts\b", stmts[sym.offset():]):
+        raise TransErr(f"{cls}::wait(int64): ts is used again after the statements that were translated: {stmts[sym.offset():][:60].strip()}")
+    stmts = stmts[:sym.offset()]        # ... (and ts is not touched again before the wait: checked above and on `tail`)
     text = " ".join(stmts.split())
     return text, sym.lets, sym.env["ts.tv_sec"], sym.env["ts.tv_nsec"]
 
@@ -955,7 +971,7 @@ ENOSYS_SCENARIOS = [
 def enosys_pass(ctx, harness):
     """TIE ONLY (the fallback is not in the Lean model): the ENOSYS branch of Semaphore::wait(timeout) - the polling loop over
     sem_trywait + usleep(10 ms) - is executed on the implementation over the simulated POSIX layer (sem_timedwait alternative 3,
-    usleep = sleep on the virtual clock), all schedules with <= 1 (quick) / <= 3 (thorough) deviations from the default policy + random schedules, and
+    usleep = sleep on the virtual clock), all schedules with <= 1 (quick) / <= 2 (thorough) deviations from the default policy + random schedules, and
     the contracts of the property (conservation, false only after call + time-out in virtual time, nobody stuck) are
     evaluated on every trace by the reference."""
     res = {"runs": 0, "ENOSYS alternatives taken": 0, "twait=1": 0, "twait=0": 0, "complaints": 0}
@@ -963,8 +979,8 @@ def enosys_pass(ctx, harness):
     for line in ENOSYS_SCENARIOS:
         sc = Scen.parse(line)
         pending, wave, done = [()], 0, 0
-        cap = 400 if quick else 20000
-        seeds = [ctx.rng.randrange(1, 2 ** 63) for _ in range(100 if quick else 3000)]
+        cap = 400 if quick else 3000
+        seeds = [ctx.rng.randrange(1, 2 ** 63) for _ in range(100 if quick else 800)]
         while (pending or seeds) and done < cap:
             runs = [f"run {sched_str(p)}" for p in pending[:cap - done]] + [f"rrun {x} -" for x in seeds]
             npend = len(runs) - len(seeds)
@@ -978,7 +994,7 @@ def enosys_pass(ctx, harness):
                 msg = contracts(sc, tr)
                 if tr.ok:
                     res["ENOSYS alternatives taken"] += sum(1 for t, a, _, _ in tr.steps if a == 3)
-                    if k < npend and wave < (1 if quick else 3):
+                    if k < npend and wave < (1 if quick else 2):
                         p = pending[k]
                         ch = tr.choices()
                         for pos in range(len(p), min(len(tr.steps), 400)):
@@ -1067,7 +1083,7 @@ def check(ctx):
         "POSIX semantics as written in lean/Nstd/Sync/Posix.lean and implemented by harness/sync/sched.cpp (glibc / kernel are NOT verified): "
         "recursive and default mutexes, condition variables with spurious wake-ups, pthread_cond_signal wakes one waiter if any, a timed-out "
         "waiter does not consume a signal, counting semaphore with EINTR, pthread_create may fail (budgeted), join yields the function's result",
-        "monotone virtual clock: no CLOCK_REALTIME jumps; time-outs are non-negative; no overflow of time_t/long; sem_timedwait never reports ENOSYS",
+        "monotone virtual clock: no CLOCK_REALTIME jumps; time-outs are non-negative; no overflow of time_t/long; the theorems assume sem_timedwait never reports ENOSYS (the polling fallback is executed on the implementation only and judged by the oracle)",
         "liveness theorems: weak fairness for every thread's progress steps and a starvation-free (strongly fair) mutex; Monitor: clients do not keep the monitor locked for ever",
         "one atomic step = one POSIX call + the library code up to the next POSIX call (the `signaled` flags are only accessed under the internal mutex)",
         "clients respect the API preconditions: unlock / Monitor::wait only by the lock holder, a Thread object is used by one thread at a time and is not restarted after join",
